@@ -124,7 +124,8 @@ def _optional_closure_scenarios(mod):
             prov = mod.OptionalCoercerProvider()
             clo = prov._provide_coercer_norm_types(Med(), Req(), normalize_type(Optional[List[int]]), normalize_type(Optional[List[str]]))
             return (lambda data, ctx: clo(data, ctx)), {"data": data, "ctx": "CTX"}, {"not_none_coercer": inner, "res": lambda f, p: made[-1] if made else object(),
-                                                                                     "pair": lambda a, b: (a, b)}
+                                                                                     "pair": lambda a, b: (a, b), "stage1": clo,
+                                                                                     "is_closure": lambda f, n: getattr(f, "__name__", None) == n}
         out.append((label, factory))
     return out
 
@@ -137,8 +138,9 @@ contract(F, "OptionalCoercerProvider._provide_coercer_norm_types", name=f"{F}:Op
          post={
              "none-stays-none": "implies(data is None, returned and result is None)",
              # NOT a truthiness test: 0, [], {} and '' are values
-             "value-goes-through-inner-coercer": ("implies(not (data is None) and returned, result is res(not_none_coercer, pair(data, ctx)) or "
-                                                  "result is data)"),
+             # (the as-is stub is handed out only when the inner coercer IS the as-is stub: then the datum itself is the result)
+             "value-goes-through-inner-coercer": ("implies(not (data is None) and returned, ite(is_closure(stage1, 'optional_coercer'), "
+                                                  "result is res(not_none_coercer, pair(data, ctx)), result is data))"),
          },
          scenarios=_optional_closure_scenarios, cover=["returned"])
 
